@@ -60,6 +60,10 @@ def handle (req : Json) : Json :=
       let mp := (field? req "max_per_rv").bind getNat?
       ofBoolList (ps.map (fusedLoopsOK shared mf mp))
     | _, _ => err "malformed"
+  | some "tollNotOutermost" =>
+    match listOf? req "paths" path?, (field? req "shared").bind strList? with
+    | some ps, some shared => ofBoolList (ps.map (tollNotOutermost shared))
+    | _, _ => err "malformed"
   | some "chain" =>
     match nat? req "bound", (field? req "tiles").bind natList? with
     | some b, some ts => Json.mkObj [("ok", Json.bool (chainOK b ts)), ("counts", ofNatList (counts b ts))]
